@@ -159,7 +159,7 @@ CHECKS = {
         "rule": "cases = target address state in {absent, base account without key, base account with public key and sequence > 0, account with public key but without any coins, continuous vesting account (optionally delegating), periodic / delayed / permanently locked vesting account of x/auth/vesting, module account, the vesting sender itself}; the vesting sender is not staking, has delegated vesting or has delegated free coins; x message in {pool send, direct vesting-account creation, split, move, move-by-denoms, cfesignature MsgCreateAccount with secp256k1 / ed25519 / malformed public-key JSON} x signer. cfesignature messages run through the app router (unroutable on this tree) and directly through keeper.NewMsgServerImpl with baseapp's accept/discard rule; a panic counts as rejection here. "
                 "Oracle: the proto bytes of every account that existed before are unchanged afterwards, except that an accepted split/move may reduce the sender's own original vesting (all other fields equal). Non-trivial = the target address existed. Distinct = SHA-256 of (target state, message).",
         "min_nontrivial_fraction": 0.5,
-        "min_class_fraction": {"msg_*types.MsgCreateAccount": 0.1, "target_continuous_vesting": 0.05, "target_base_with_key_and_sequence": 0.05, "target_module_account": 0.05, "target_periodic_vesting": 0.05, "target_delayed_vesting": 0.05, "target_permanent_locked": 0.05, "target_base_with_key_without_funds": 0.05},
+        "min_class_fraction": {"msg_*types.MsgCreateAccount": 0.1, "target_continuous_vesting": 0.05, "target_base_with_key_and_sequence": 0.05, "target_module_account": 0.05, "target_periodic_vesting": 0.05, "target_delayed_vesting": 0.05, "target_permanent_locked": 0.05, "target_base_with_key_without_funds": 0.05, "target_continuous_vesting_finished": 0.04},
         "level_text": "Exhaustive-by-generation product of target states and account-creating messages with a byte-exact before/after oracle over the whole account store.",
         "level_note": "The signature module's Msg service is not registered with the app on this tree (DESIGN §2.6); its handlers are driven directly because the property anchors in them and registering the service is a one-line change.",
         "design_ref": "DESIGN.md §5 C09",
@@ -181,7 +181,7 @@ CHECKS = {
         "title": "Reported inflation equals the actual annualised emission rate",
         "level": "exploration",
         "technique": "property-based testing (rapid): metamorphic relation between the Inflation query and the coins minted over the next millisecond-aligned interval inside the same step",
-        "tests": [T("TestC19", 3000, 12000, qshards=2)],
+        "tests": [T("TestC19", 3000, 12000, qshards=2), T("TestC19Rescheduled", 600, 3000)],
         "rule": "cases = valid minter configuration (as C02; mint denomination uc4e or uatom) x extra supply from the boundary mixture up to 10^30 x a period (4 of 5 draws prefer a minting period) x, for exponential periods, a step x millisecond-aligned instants t < t+d inside that step and period (d in {1 ms, maximal, uniform}), optionally preceded by an earlier block. Oracle: |minted(t,t+d) - inflation(t) x supply(t) x d/year| <= 2 + pred x 2ms/period + supply x 2x10^-18 x d/year + 10^-6; inflation == 0 before the start time and in no-minting periods. "
                 "Non-trivial = the predicted mint is at least 1000 base units. Distinct = SHA-256 of (configuration, period, t, d, extra supply).",
         "min_nontrivial_fraction": 0.12,
@@ -194,7 +194,7 @@ CHECKS = {
         "title": "Genesis lineage of vesting accounts and vesting summaries are accurate",
         "level": "exploration",
         "technique": "stateful property-based testing (rapid state machine) against a lineage reference model (transitive closure) and summaries recomputed from bank and account state",
-        "tests": [T("TestC17", 300, 1500, qshards=2, steps=60)],
+        "tests": [T("TestC17", 300, 1500, qshards=2, steps=75)],
         "plain_tests": ["TestRegressSpelling"],
         "rule": "cases = world seeded through keeper setters with 2-6 pools (genesis flag drawn per pool) for two owners and 0-3 vesting accounts (genesis-traced, non-genesis traced, untraced), then a rapid state machine (avg 60 steps) over pool sends, direct creations, split / move / move-by-denoms (from recent accounts and from the deepest account of the genesis and of the non-genesis line), real MsgDelegate / MsgUndelegate and time advances; recipient addresses are spelled in upper case bech32 one time in four (trace records are compared by decoded address). After every step: {traced addresses} and {addresses recorded as genesis-derived} equal the model's sets (genesis-derived = from a genesis pool, or seeded genesis account, or split/moved from a genesis-derived traced account), and both summary queries equal (pools, sum of still-vesting coins of the recorded accounts, vesting - locked) recomputed from bank LockedCoins and the accounts' vesting schedules. "
                 "Non-trivial = a chain of depth >= 2 from a genesis root and one from a non-genesis root. Distinct = SHA-256 of the history.",
